@@ -191,7 +191,7 @@ def main(argv=None):
         both = rng.random() < 0.6
         d = SR.random_poly_input(rng, rng.randint(3, 4), rng.randint(3, 4), 2 if algo == "ext_spfs" else rng.randint(2, 3), D.ORDERED[algo],
                                  both or rng.random() < 0.5, True, max_arity=3 if both else 4)
-        items.append({"kind": "e2e", "prop": PROP, "desc": d, "runs": SR.runs_for([algo], ["any", "all"] if not q else ["any"], FL, "dhs", inf_too=not q),
+        items.append({"kind": "e2e", "prop": PROP, "desc": d, "runs": SR.runs_for([algo], ["any", "all"] if not q else ["any"], FL, "dhs", inf_too=True),
                       "max_paths": 8000 if q else 40000, "budget_s": 200.0 if q else 900.0, "section": 3})
     order = sorted(range(len(items)), key=lambda i: -(items[i]["section"] * 100 + len(str(items[i].get("desc", items[i].get("t"))))))
     res, sk = R.run_sharded(worker, [items[i] for i in order], 130 if q else 3000)
